@@ -1,2 +1,7 @@
 import LnnVerif.Props.C01
 import LnnVerif.Props.C04
+import LnnVerif.Props.C05
+import LnnVerif.Props.C06
+import LnnVerif.Props.C13
+import LnnVerif.Props.C17
+import LnnVerif.Props.C07
